@@ -363,4 +363,22 @@ def find_closure(fi: FuncInfo, expr: ast.AST) -> Optional[ast.AST]:
         o = origin(defs, expr)
         if isinstance(o, ast.Lambda):
             return o
+        # a closure handed out by a factory of the same module:  nm, em = <factory>(...)  with  def <factory>(..): def nm(..) ..; def em(..) ..; return nm, em
+        for d_ in defs.get(expr.id, []):
+            if isinstance(d_.value, ast.Call):
+                fname = d_.value.func.attr if isinstance(d_.value.func, ast.Attribute) else (d_.value.func.id if isinstance(d_.value.func, ast.Name) else None)
+                for q, other in fi.module.funcs.items():
+                    if q.split(".")[-1] != fname or other is fi:
+                        continue
+                    rets = [r for r in walk_local(other.node) if isinstance(r, ast.Return) and r.value is not None]
+                    if len(rets) != 1:
+                        continue
+                    rv = rets[0].value
+                    elt = rv.elts[d_.index[0]] if (d_.index is not None and isinstance(rv, ast.Tuple) and len(d_.index) == 1 and d_.index[0] < len(rv.elts)) else (rv if d_.index is None else None)
+                    if isinstance(elt, ast.Lambda):
+                        return elt
+                    if isinstance(elt, ast.Name):
+                        inner = [n for n in ast.walk(other.node) if isinstance(n, ast.FunctionDef) and n.name == elt.id and n is not other.node]
+                        if inner:
+                            return inner[-1]
     return None
